@@ -2,6 +2,8 @@ import VtProofs.Versatiles
 import VtProofs.PMTiles
 import VtProofs.PMFind
 import VtProofs.Hilbert
+import VtProofs.VersatilesWrite
+import VtProofs.MBTiles
 /-!
 # C01 — container round trip is lossless for every tile set and every format
 
@@ -41,5 +43,80 @@ theorem pmtiles_header_roundtrip (h : PMTiles.Header) (ok : VtProofs.PMTiles.Hea
 theorem pmtiles_directory_roundtrip (es : List PMTiles.Entry) (hok : ∀ e ∈ es, VtProofs.PMTiles.EntryOk e)
     (hn : es.length ≤ 10000000000) (b : Bytes) (h : PMTiles.encDir es = .ok b) : PMTiles.decDir b = .ok es :=
   VtProofs.PMTiles.decDir_encDir es hok hn b h
+
+/-! ## versatiles: the container round trip -/
+
+open VtProofs.VersatilesWrite in
+/-- **C01 (versatiles), full strength** — for EVERY source (pyramid of valid level boxes with increasing
+    zoom; per grid cell a stream that enumerates the source's tiles of the cell once each, in any
+    order; payloads below 4 GiB, duplicates and sizes around the 1000-byte de-duplication threshold
+    included) and every compressor `enc` with decompressor `K` (`K.brotli (enc b) = some b`, empty input
+    rejected): if the writer returns a file (below 2^64 bytes, compressed tile indexes below 4 GiB),
+    then the reader opens it, declares the source's format and compression, and for every coordinate
+    returns the source's payload if it is non-empty and `None` otherwise — no lost tile, no extra tile,
+    no wrong payload, no error, no panic.
+    Proof: the 256-grid partitions every level box (each tile in exactly one block, different cells
+    have different block coordinates), offsets are relative to the block start, de-duplicated index
+    entries point at equal bytes (`VtProofs.VersatilesBlock.putAt_inv`), the block index is written
+    last and found through the rewritten header; so the file satisfies the relational layout
+    description `ValidVersatiles`, and the reader is complete for it (C16). -/
+theorem versatiles_roundtrip (K : Inflate) (enc : Bytes → Bytes) (s : Versatiles.Source)
+    (tiles : Nat × Nat × Nat → Option Bytes) (gs : GoodSource s tiles)
+    (hK : ∀ b, K.brotli (enc b) = some b) (hnil : K.brotli [] = none)
+    (hmeta : s.metaB.length > 0 → ∃ raw, K.run s.comp s.metaB = .ok raw)
+    (file : Bytes) (defs : List Versatiles.BlockDef) (hw : Versatiles.write enc s = .ok (file, defs))
+    (hsize : file.length < U64) (hidx32 : ∀ d ∈ defs, d.index.len < 2 ^ 32) :
+    ∃ r, Versatiles.openReader K file = .ok r ∧ r.header.fmt = s.fmt ∧ r.header.comp = s.comp ∧
+      ∀ x y z, z ≤ 31 → Versatiles.getTile r x y z = .ok (nonEmpty (tiles (x, y, z))) :=
+  VtProofs.VersatilesRead.versatiles_complete
+    (write_valid K enc s tiles gs hK hnil hmeta file defs hw hsize hidx32)
+
+/-- the written file follows the published layout (so that ANY conforming decoder recovers the map) -/
+theorem versatiles_writer_follows_layout (K : Inflate) (enc : Bytes → Bytes) (s : Versatiles.Source)
+    (tiles : Nat × Nat × Nat → Option Bytes) (gs : VtProofs.VersatilesWrite.GoodSource s tiles)
+    (hK : ∀ b, K.brotli (enc b) = some b) (hnil : K.brotli [] = none)
+    (hmeta : s.metaB.length > 0 → ∃ raw, K.run s.comp s.metaB = .ok raw)
+    (file : Bytes) (defs : List Versatiles.BlockDef) (hw : Versatiles.write enc s = .ok (file, defs))
+    (hsize : file.length < U64) (hidx32 : ∀ d ∈ defs, d.index.len < 2 ^ 32) :
+    VtProofs.VersatilesRead.ValidVersatiles K file s.fmt s.comp (fun p => VtProofs.VersatilesWrite.nonEmpty (tiles p)) :=
+  VtProofs.VersatilesWrite.write_valid K enc s tiles gs hK hnil hmeta file defs hw hsize hidx32
+
+/-- de-duplication keeps index entries pointing at equal bytes: one step of the block writer -/
+theorem versatiles_dedup_step {M n : Nat} {done : List (Nat × Bytes)} {s : Versatiles.BlockState}
+    (inv : VtProofs.VersatilesBlock.Inv M n done s) (i : Nat) (payload : Bytes) (hi : i < n)
+    (hM : payload.length < M) (hnew : ∀ d ∈ done, d.1 ≠ i) :
+    VtProofs.VersatilesBlock.Inv M n ((i, payload) :: done) (Versatiles.putAt i s payload) :=
+  VtProofs.VersatilesBlock.putAt_inv inv i payload hi hM hnew
+
+/-! ## mbtiles -/
+
+/-- `flip ∘ flip = id` on valid rows -/
+theorem mbtiles_flip_flip (z y : Nat) (h : y < 2 ^ z) : 2 ^ z - 1 - (2 ^ z - 1 - y) = y :=
+  VtProofs.MBTiles.flip_flip z y h
+
+/-- **C01 (mbtiles)**: reading any valid coordinate from the rows the writer inserted returns the source tile -/
+theorem mbtiles_roundtrip (tiles : List VtProofs.MBTiles.Tile) (hv : ∀ t ∈ tiles, t.1.2.1 < 2 ^ t.1.2.2)
+    (fmt : TileFormat) (comp : TComp) (cov : List BBox) (x y z : Nat) (hy : y < 2 ^ z) (hz : z ≤ 31) :
+    MBTiles.getTile ⟨MBTiles.writeRows tiles, fmt, comp, cov⟩ x y z = .ok (VtProofs.MBTiles.lookup tiles (x, y, z)) :=
+  VtProofs.MBTiles.roundtrip tiles hv fmt comp cov x y z hy hz
+
+/-! ## non-vacuity: a concrete source, a toy codec, the real model functions -/
+
+def toyEnc (b : Bytes) : Bytes := 0 :: b
+def toyK : Inflate := ⟨some, fun b => match b with | 0 :: r => some r | _ => none⟩
+
+/-- four tiles on both sides of the 256 grid at zoom 9, a duplicate payload and an empty payload -/
+def demoSource : Versatiles.Source := ⟨.png, .none, 0, 0, 0, 0, [], [⟨9, 255, 255, 256, 256⟩],
+  fun c => ([((255, 255, 9), [1, 2, 3]), ((256, 255, 9), [1, 2, 3]), ((255, 256, 9), []), ((256, 256, 9), [9])]
+    : List Versatiles.Tile).filter (fun t => c.contains2 t.1.1 t.1.2.1)⟩
+
+set_option maxRecDepth 20000 in
+example : (match Versatiles.write toyEnc demoSource with
+    | .ok (f, _) => match Versatiles.openReader toyK f with
+      | .ok r => [Versatiles.getTile r 255 255 9, Versatiles.getTile r 256 255 9, Versatiles.getTile r 255 256 9,
+                  Versatiles.getTile r 256 256 9, Versatiles.getTile r 257 256 9]
+      | _ => []
+    | _ => []) = [.ok (some [1, 2, 3]), .ok (some [1, 2, 3]), .ok none, .ok (some [9]), .ok none] := by
+  decide
 
 end VtProps.C01
